@@ -5,7 +5,8 @@
    Documents are canonical (a column stores its non-default cells only), so "every table, the metadata and the
    schema are exactly as before" is Leibniz equality of `doc` (tables, Column objects and engine.schema). *)
 From stdpp Require Import gmap.
-Require Import Grist.Model.Rollback Grist.Proofs.Rollback_proofs Grist.Proofs.Rollback_run Grist.Proofs.Rollback_witness.
+Require Import Grist.Model.Rollback Grist.Proofs.Rollback_proofs Grist.Proofs.Rollback_run Grist.Proofs.Rollback_inside
+  Grist.Proofs.Rollback_witness.
 Open Scope Z_scope.
 
 (* The property at full strength: for EVERY micro-step index k, crashing the bundle there and rolling back to the
@@ -56,15 +57,16 @@ Proof.
   destruct (H w_ord w_doc [] w_calc 7%nat st cur done Hw Hrun) as (s_r & Hr & -> & _). exact (Hne Hr).
 Qed.
 
-(* What IS proved, for all documents, all event sequences and all crash points of the stated kind: crash between
-   doc actions (at most the schema clone of the next schema action has run; this includes a later action failing
-   its asserts), no calc delta pending in the summary, no ReplaceTableData in the bundle. *)
+(* What IS proved, for all documents, all event sequences and all crash points of the stated kind:
+   crash between doc actions (at most the schema clone of the next schema action has run; this includes a later
+   action failing its asserts) or ANYWHERE inside the undo-first action [Bulk]AddRecord (covered_point);
+   no calc delta pending in the summary; no ReplaceTableData in the bundle. *)
 Theorem C04_rollback_partial : forall ord (s : doc) (u0 : list action) (es : list event) (k : nat) st cur done,
   wf s -> Forall no_replace_ev es ->
   run_until_crash ord (init_state s u0) es k = Crashed st cur done ->
-  ms_pending st = [] -> Forall (fun m => m = MSave) done ->
+  ms_pending st = [] -> covered_point cur done ->
   exists s_r, rollback ord (length u0) st = Some s_r /\ s_r = s /\ d_schema s_r = d_schema s.
-Proof. intros. exists s. split; [eapply rollback_partial; eauto|split; reflexivity]. Qed.
+Proof. intros. exists s. split; [eapply rollback_partial_covered; eauto|split; reflexivity]. Qed.
 
 (* validation failure = crash before the first micro-step: identity, for every document and bundle *)
 Theorem C04_validation_failure : forall ord (s : doc) (u0 : list action) (es : list event) st cur done,
@@ -85,10 +87,20 @@ Example C04_partial_nonvacuous :
   wf w_doc /\ Forall no_replace_ev es /\
   match run_until_crash w_ord (init_state w_doc []) es 100 with
   | Crashed st (Some (EDoc (RemoveTable _))) [MSave] =>
-      ms_pending st = [] /\ length (ms_undo st) = 4%nat /\ bool_decide (rollback w_ord 0 st = Some w_doc) = true
+      ms_pending st = [] /\ length (ms_undo st) = 4%nat /\ covered_point (Some (EDoc (RemoveTable T))) [MSave] /\
+      bool_decide (rollback w_ord 0 st = Some w_doc) = true
   | _ => False
   end.
 Proof.
   split; [exact w_doc_wf|]. split; [repeat constructor|]. vm_compute.
-  split; [reflexivity|]. split; [reflexivity|]. reflexivity.
+  split; [reflexivity|]. split; [reflexivity|]. split; [left; repeat constructor|reflexivity].
 Qed.
+
+(* ... and inside BulkAddRecord: crash after its two rows were added and one cell was written *)
+Example C04_partial_inside_add_nonvacuous :
+  match run_until_crash w_ord (init_state w_doc []) w_add 5 with
+  | Crashed st (Some (EDoc a)) done =>
+      is_add_record a /\ length done = 5%nat /\ ms_pending st = [] /\ bool_decide (rollback w_ord 0 st = Some w_doc) = true
+  | _ => False
+  end.
+Proof. vm_compute. repeat split. Qed.
